@@ -289,11 +289,7 @@ pub fn known_match<'a>(known: &'a [Value], v: &Violation) -> Option<&'a Value> {
     known.iter().find(|k| {
         let prop = k.get("property").and_then(|x| x.as_str()).unwrap_or("");
         let sig = k.get("signature").and_then(|x| x.as_str()).unwrap_or("\u{0}");
-        let sig_ok = if let Some(pre) = sig.strip_suffix('*') {
-            v.signature.starts_with(pre)
-        } else {
-            v.signature == sig
-        };
+        let sig_ok = glob_match(sig, &v.signature);
         let cfg = v.detail.get("cfg").and_then(|x| x.as_str()).unwrap_or("");
         let req_ok = k
             .get("requires")
@@ -302,6 +298,31 @@ pub fn known_match<'a>(known: &'a [Value], v: &Violation) -> Option<&'a Value> {
             .unwrap_or(true);
         prop == v.property && sig_ok && req_ok
     })
+}
+
+/// '*' matches any (possibly empty) substring; everything else is literal.
+pub fn glob_match(pat: &str, text: &str) -> bool {
+    let parts: Vec<&str> = pat.split('*').collect();
+    if parts.len() == 1 {
+        return pat == text;
+    }
+    let mut pos = 0usize;
+    for (i, part) in parts.iter().enumerate() {
+        if i == 0 {
+            if !text.starts_with(part) {
+                return false;
+            }
+            pos = part.len();
+        } else if i == parts.len() - 1 {
+            return text.len() >= pos + part.len() && text[pos..].ends_with(part);
+        } else {
+            match text[pos..].find(part) {
+                Some(k) => pos += k + part.len(),
+                None => return false,
+            }
+        }
+    }
+    true
 }
 
 pub fn parent_main(p: &PropDef, tier: Tier, seed: u64) -> i32 {
@@ -464,8 +485,10 @@ pub fn parent_main(p: &PropDef, tier: Tier, seed: u64) -> i32 {
         match known_match(&known, v) {
             Some(k) => {
                 let what = k.get("what").and_then(|x| x.as_str()).unwrap_or(&v.what).to_string();
-                if !known_hits.iter().any(|(s, _)| *s == v.signature) {
-                    known_hits.push((v.signature.clone(), what));
+                let ksig = k.get("signature").and_then(|x| x.as_str()).unwrap_or("").to_string();
+                // one line per LISTED finding, however many executions hit it
+                if !known_hits.iter().any(|(s, _)| *s == ksig) {
+                    known_hits.push((ksig, what));
                 }
             }
             None => new_viol.push(v.clone()),
@@ -487,7 +510,12 @@ pub fn parent_main(p: &PropDef, tier: Tier, seed: u64) -> i32 {
                 let o = Command::new(&exe).args(["replay", &path]).stdin(Stdio::null()).stderr(Stdio::null()).output();
                 if let Ok(o) = o {
                     let so = String::from_utf8_lossy(&o.stdout);
-                    if so.lines().any(|l| l.starts_with("REPRODUCED ") && l.contains(&v.signature)) {
+                    if so.lines().any(|l| {
+                        l.strip_prefix("REPRODUCED ")
+                            .and_then(|r| r.split_once("signature="))
+                            .map(|(_, sig)| v.signature == sig || v.signature.ends_with(&format!("::{sig}")))
+                            .unwrap_or(false)
+                    }) {
                         ok += 1;
                     } else if v.signature.starts_with("abort::") && !o.status.success() && o.status.code().is_none() {
                         // died by signal again
